@@ -8,7 +8,7 @@ from vlib import fexpr
 
 from . import corecommon as cc
 
-PROPS = ["MxlVerif.Props.C13", "MxlVerif.Props.C13Main"]
+PROPS = ["MxlVerif.Props.C13", "MxlVerif.Props.C13Main", "MxlVerif.Props.C01Tie"]
 
 
 def setup(ctx):
@@ -16,10 +16,11 @@ def setup(ctx):
     ctx.shrinker = cc.shrink_case
     ctx.rule = (
         "(a) exhaustive: all classification graphs with 3 derived quantities, each with 1-2 arguments drawn from "
-        "{plain parameter, assignment-defined parameter, variable, time, the other derived} in 2 declaration orders "
+        "{plain parameter, assignment-defined parameter, variable, time, the other derived}, one declaration order per labelled graph cycling through all six (thorough: all six each) "
         "(thorough: 4 derived, sampled 60000 of 28^4); (b) random contents biased to initial assignments on variables and "
         "parameters chained through derived quantities, rates, surrogates and each other; observed: initial conditions, "
-        "Simulator(model).y0, derived-parameter/variable names, get_args at states != initial state and times != 0. "
+        "Simulator(model).y0, derived-parameter/variable names, get_args at states != initial state and times != 0; "
+        "(c) the same after make_variable_static / make_parameter_dynamic through the API (assignment-defined values keep their kind). "
         "distinct = distinct (content, queries); non-trivial = has an initial assignment or a derived quantity"
     )
     ctx.assumptions += ["Simulator.__init__ beyond reading model.get_initial_conditions() is not modelled"]
@@ -55,8 +56,22 @@ def class_graphs(n):
     return itertools.product(*choices_for)
 
 
+PERMS3 = [list(p) for p in itertools.permutations(range(3))]
 QUERIES = [["init"], ["simy0"], ["classes"], ["pvals"], ["args", None, "0"],
            ["args", [["x", "5"]], "3"], ["rhs", [["x", "5"]], "3"], ["call", "3", ["5"]]]
+
+
+def _tally(ctx, q, r):
+    """distribution of what the generator reaches: query kind x outcome class of the real code"""
+    if isinstance(r, dict) and "err" in r:
+        cls = r["err"][0]
+    elif isinstance(r, dict) and "ok" in r:
+        cls = "ok"
+    else:
+        cls = "parts"
+    d = ctx.extra_cov.setdefault("reached_outcomes", {})
+    key = f"{q[0]}:{cls}"
+    d[key] = d.get(key, 0) + 1
 
 
 def judge_case(ctx, case, R, M, S):
@@ -69,8 +84,11 @@ def judge_case(ctx, case, R, M, S):
     nq = len(case["queries"])
     for i in range(len(R)):
         q = case["queries"][i % nq]
+        _tally(ctx, q, R[i])
         # a query is judged together with everything asked before it (the history matters)
         sub = {"content": c, "queries": case["queries"][: (i % nq) + 1], "decl_seed": case.get("decl_seed", 0)}
+        if case.get("pre_edit"):
+            sub["pre_edit"] = case["pre_edit"]
         if i >= nq:
             sub["edit"] = case["edit"]
         ctx.judge(sub, R[i], S[i], None if M is None else M[i],
@@ -104,12 +122,41 @@ def gen_random(ctx):
     return case
 
 
+def gen_mutated(ctx):
+    """a variable made static / a parameter made dynamic through the API before anything is asked: an
+    assignment-defined variable must come back as a parameter resolved once at t = 0 (not re-evaluated from the
+    state), an assignment-defined parameter as a variable whose initial value is resolved at t = 0"""
+    rng = ctx.rng
+    while True:
+        content = C.gen_content(rng, p_ia=0.9, n_vars=(2, 5), n_pars=(1, 4), n_comps=(3, 9), p_time=0.3)
+        ia_vars = [k for k, v in content["vars"] if "ia" in v]
+        ia_pars = [k for k, v in content["pars"] if "ia" in v]
+        if ia_vars or ia_pars:
+            break
+    ops = []
+    if ia_vars and (not ia_pars or rng.random() < 0.6):
+        ops.append(["make_variable_static", rng.choice(ia_vars if rng.random() < 0.8 else [k for k, _ in content["vars"]]), None])
+    else:
+        ops.append(["make_parameter_dynamic", rng.choice(ia_pars if rng.random() < 0.8 else [k for k, _ in content["pars"]]), None])
+    case = {"content": content, "pre_edit": ops, "decl_seed": rng.randrange(1 << 30), "shape": "mut:" + ops[0][0]}
+    eff = cc.effective_content(case)
+    qs = [["init"], ["classes"], ["pvals"], ["args", None, "0"]]
+    for _ in range(2):
+        st = C.gen_state(rng, eff, vals=(0, 1, 2, 4, 7))
+        t = str(rng.choice([1, 2, 3, "1/2"]))
+        qs += [["args", st, t], ["rhs", st, t], ["stoich", st, t]]
+    case["queries"] = qs
+    return case
+
+
 def run(ctx):
     setup(ctx)
     thorough = ctx.tier == "thorough" or not ctx.proof_ok
     batch = []
     for idx, arglists in enumerate(class_graphs(3)):
-        for order in ([0, 1, 2], [2, 1, 0]) if not thorough else itertools.permutations(range(3)):
+        # every labelled graph is enumerated, so one declaration order per graph (cycling through all six) already
+        # meets every (unlabelled graph, order) pair; thorough declares each graph in all six orders
+        for order in ([PERMS3[idx % 6]] if not thorough else PERMS3):
             batch.append({"content": class_content(arglists, list(order)), "queries": QUERIES, "decl_seed": idx, "shape": "class3"})
         if len(batch) >= 4000:
             run_batch(ctx, batch)
@@ -142,6 +189,7 @@ def run(ctx):
         cases = [gen_random(ctx) for _ in range(min(250, n - done))]
         run_batch(ctx, cases)
         done += len(cases)
+    run_batch(ctx, [gen_mutated(ctx) for _ in range(ctx.n(300, 6000))])
 
 
 def replay(ctx, rp):
